@@ -90,6 +90,9 @@ func (sp *SAMLServiceProvider) validateLogoutResponseAttributes(response *types.
 
 func xmlUnmarshalElement(el *etree.Element, obj interface{}) error {
 	doc := etree.NewDocument()
+	// Escape carriage returns in text as character references so that they
+	// survive re-parsing (a raw CR would be normalized to LF).
+	doc.WriteSettings.CanonicalText = true
 	doc.SetRoot(el)
 	data, err := doc.WriteToBytes()
 	if err != nil {
